@@ -5,6 +5,7 @@ import queue
 import threading
 import time
 import logging
+from multiprocessing.reduction import ForkingPickler
 from typing import Any, Callable, Dict, List, Optional, Set, Tuple, Union
 from uuid import UUID
 
@@ -52,6 +53,12 @@ class WorkerManager:
         if result is None:
             raise ValueError(f"No process found for CFW UUID: {cfw_uuid}")
         _, command_queue, _ = result
+        # Queue.put pickles in a feeder thread: a command that cannot be pickled would only be reported on stderr there,
+        # never reach the worker, and the run would wait for its result forever. Fail here, in the caller, instead.
+        try:
+            ForkingPickler.dumps(command)
+        except Exception as e:
+            raise ValueError(f"Command for CFW {cfw_uuid} cannot be sent to its worker process: {e}") from e
         command_queue.put(command)
 
     def poll_result_queues(self) -> None:
